@@ -36,8 +36,10 @@ type msgSpec struct {
 	JSON    string
 }
 
-func (m *memberSpec) isCall() bool     { return strings.IndexByte("cfuidgq", m.Kind) >= 0 }
-func (m *memberSpec) isNote() bool     { return m.Kind == 'n' || m.Kind == 'v' || m.Kind == 'h' || m.Kind == 'p' || m.Kind == 'z' }
+func (m *memberSpec) isCall() bool { return strings.IndexByte("cfuidgq", m.Kind) >= 0 }
+func (m *memberSpec) isNote() bool {
+	return m.Kind == 'n' || m.Kind == 'v' || m.Kind == 'h' || m.Kind == 'p' || m.Kind == 'z'
+}
 func (m *memberSpec) hasHandler() bool { return strings.IndexByte("cfndghpqz", m.Kind) >= 0 }
 
 // buildSeq turns tokens into concrete messages with fresh ids.
@@ -128,13 +130,13 @@ func (a anyAssigner) Assign(ctx context.Context, method string) jrpc2.Handler {
 
 // seqHarness is the per-execution state of a message-sequence scenario.
 type seqHarness struct {
-	msgs  []*msgSpec
-	gates *Gates
-	tok   int
+	msgs    []*msgSpec
+	gates   *Gates
+	tok     int
 	entered map[string]bool
-	srv   *jrpc2.Server
-	pipe  *Pipe
-	peer  *PeerEnd
+	srv     *jrpc2.Server
+	pipe    *Pipe
+	peer    *PeerEnd
 }
 
 // stdHandler logs h_enter / h_exit around a scheduling point and returns a
